@@ -490,13 +490,15 @@ func (ndb *nodeDB) deleteVersion(version int64, cache *rootkeyCache) error {
 			if orphan.nodeKey.nonce == 1 && orphan.nodeKey.version == version && !orphan.isLegacy {
 				rootOrphaned = true
 			}
-			if orphan.nodeKey.nonce == 1 && orphan.nodeKey.version < version {
+			nk := orphan.GetKey()
+			if orphan.nodeKey.nonce == 1 && orphan.nodeKey.version < version && !orphan.isLegacy {
 				// if the orphan is referred to the previous root, it should be reformatted
 				// to (version, 0), because the root (version, 1) should be removed but not
 				// applied now due to the batch writing.
-				orphan.nodeKey.nonce = 0
+				// The key is computed without touching the node, which is shared with
+				// concurrent readers through the node cache.
+				nk = (&NodeKey{version: orphan.nodeKey.version, nonce: 0}).GetKey()
 			}
-			nk := orphan.GetKey()
 			if orphan.isLegacy {
 				return ndb.deleteFromPruning(ndb.legacyNodeKey(nk))
 			}
